@@ -126,6 +126,7 @@ class Buf:
     def __init__(self, shape, fill, node=None, loops=()):
         self.shape, self.fill, self.node = list(shape), fill, node
         self.created_loops = list(loops)
+        self.dtype = None  # value of the dtype argument (None = not given)
         self.stores = []  # StoreRec
 
     def __repr__(self):
@@ -174,8 +175,9 @@ class Strided(V):
     """as_strided(base, shape, strides); ``unit`` = every stride is the item size of ``base``."""
     _f = ("base", "shape", "unit")
 
-    def __init__(self, base, shape, unit):
+    def __init__(self, base, shape, unit, steps=None):
         self.base, self.shape, self.unit = base, list(shape), unit
+        self.steps = steps  # per axis: the stride in items of ``base`` (affine form) or None when not understood
 
 
 class Lsp(V):
@@ -1030,8 +1032,9 @@ class XInterp(Interp):
             return Opq("slice-step", [b])
         if isinstance(b, NDS + (AccList, ListV, Piece, Row, Rows, Pieces, Cols)):
             spec = self.parse_spec(e.slice, st, frame)
-            self.record("load", e, b, spec, None, st, frame, how)
-            return self.make_sub(b, spec, how, st)
+            r = self.make_sub(b, spec, how, st)
+            self.record("load", e, b, spec, r, st, frame, how)
+            return r
         sl = e.slice
         if isinstance(b, Tup) and isinstance(sl, ast.Slice) and sl.step is None:
             lo = as_lin_val(self.ev(sl.lower, st, frame)) if sl.lower is not None else Lin.c(0)
@@ -1306,7 +1309,9 @@ class XInterp(Interp):
             dl = [as_lin_val(d) for d in dims]
             if all(d is not None for d in dl):
                 fill = b.get("fill_value") if ext == "numpy.full" else (K("uninit") if ext == "numpy.empty" else Lin.c(0 if ext == "numpy.zeros" else 1))
-                return Buf(dl, fill, call, st.loops)
+                buf = Buf(dl, fill, call, st.loops)
+                buf.dtype = b.get("dtype")
+                return buf
             return Opq("buf", args)
         if ext == "numpy.pad":
             b = self.bind_ext(ext, args, kwargs)
@@ -1326,7 +1331,8 @@ class XInterp(Interp):
             if isinstance(shp, Tup) and isinstance(strd, Tup) and all(as_lin_val(x) is not None for x in shp.items):
                 kinds = [_stride_kind(x, base) for x in strd.items]
                 unit = None if (None in kinds or len(kinds) != len(shp.items)) else all(k == "unit" for k in kinds)
-                return Strided(base, [as_lin_val(x) for x in shp.items], unit)
+                steps = [_stride_items(x, base) for x in strd.items] if len(strd.items) == len(shp.items) else None
+                return Strided(base, [as_lin_val(x) for x in shp.items], unit, steps)
             return Opq("as_strided", args)
         if ext == "numpy.linspace":
             b = self.bind_ext(ext, args, kwargs)
@@ -1469,6 +1475,18 @@ def _stride_kind(x, base):
         return "other"
     if isinstance(x, Lin):
         return "other"
+    return None
+
+
+def _stride_items(x, base):
+    """Stride as a multiple of the item size of ``base`` (affine form), or None."""
+    if _stride_kind(x, base) == "unit":
+        return ONE
+    if isinstance(x, Opq) and x.tag == "mul" and len(x.args) == 2:
+        for a, b in ((x.args[0], x.args[1]), (x.args[1], x.args[0])):
+            la = as_lin_val(a)
+            if la is not None and _stride_kind(b, base) == "unit":
+                return la
     return None
 
 
